@@ -19,6 +19,7 @@
     atomic steps {nextRandom, exclusive create, reseed}.
 -/
 import AferoVerif.Proofs.TempFile
+import AferoVerif.Generated.Facts
 namespace AferoVerif.C18
 open AferoVerif AferoVerif.Path AferoVerif.Temp
 
@@ -599,5 +600,16 @@ def spec2 : Nat → Spec := fun _ => { dir := s "/d", pre := s "t" }
 set_option maxRecDepth 100000 in
 example : ((concRun spec2 { m := MemFs.init, g := { randNum := 7 } } [0, 1, 1, 0]).log.map (·.2)) =
     [s "/d/t025555898", s "/d/t923423697"] := by decide
+
+/-! ### tie to the source: constants regenerated from the Go code on every run -/
+
+/-- the generator, the digit count, the number of tries and the reseed threshold of the model are the
+    ones written in ioutil.go (extracted by harness/cmd/facts from `nextRandom`, `TempFile`, `TempDir`) -/
+theorem generator_is_source :
+    (∀ r : UInt32, lcg r = r * UInt32.ofNat Generated.lcgMul + UInt32.ofNat Generated.lcgAdd) ∧
+    (∀ r : UInt32, randStr r = digitsAux 9 (r.toNat % Generated.randModulus)) ∧
+    maxTries = Generated.maxTriesTempFile ∧ maxTries = Generated.maxTriesTempDir ∧
+    Generated.reseedAfterTempFile = 10 ∧ Generated.reseedAfterTempDir = 10 :=
+  ⟨fun _ => rfl, fun _ => rfl, rfl, rfl, rfl, rfl⟩
 
 end AferoVerif.C18
